@@ -60,39 +60,64 @@ theorem utxos_exact (c : List Block) (hv : LedgerChainValid (fun _ => none) c) (
 theorem proofs_current (c : List Block) : ∀ id u, (follow c).utxos id = some u → u.basis = (follow c).tip :=
   synced_follow c
 
-/-- **balance_eq_partial.** Sum of inflows minus sum of outflows equals the sum of the unspent
+/-- **balance_of_accounted.** (step towards `balance_eq`) Sum of inflows minus sum of outflows equals the sum of the unspent
 outputs, for every chain whose blocks' events account for their own diffs (`Accounted`).
 `ids` is any duplicate-free list naming the outputs the chain ever gave to or took from the
 wallet (the sum over the store's finite map is taken over it). -/
-theorem balance_eq_partial (c : List Block) (hc : ChainValid Store.init c) (ids : List Nat) (hn : ids.Nodup)
+theorem balance_of_accounted (c : List Block) (hc : ChainValid Store.init c) (ids : List Nat) (hn : ids.Nodup)
     (hb : ∀ b ∈ c, Accounted b ∧ (∀ e ∈ ownCreated b.diffs, e.id ∈ ids) ∧ (∀ e ∈ ownSpent b.diffs, e.id ∈ ids)) :
     netIn (follow c).events = netOut (follow c).events + total (follow c) ids :=
   balance_chain ids hn c Store.init hc hb (by rw [total_init]; rfl)
 
-/-- what a block's contents and its diffs have to do with each other (consensus): the wallet's
-share of the elements the block creates is what its transactions, claims, contract
-resolutions, miner payouts and foundation subsidy pay to the wallet, and its share of the
-spent elements is what its transactions take from it -/
-def BlockCoherent (b : Block) : Prop :=
-  let ephem := ((b.diffs.filter fun d => d.created && d.spent && d.e.own).map (·.e.value)).sum
-  let paid := (b.txns.map sumOwnOuts).sum +
-    ((b.txns.flatMap fun t => t.sfins.filter (·.claimOwn)).map fun si => (lookup b.diffs si.claimId).elim 0 (·.value)).sum +
-    ((b.res1.flatMap fun r => r.outs.filter (·.1)).map fun o => (lookup b.diffs o.2).elim 0 (·.value)).sum +
-    ((b.res2.flatMap fun r => [r.hostId, r.renterId]).map fun id => (lookup b.diffs id).elim 0 fun e => if e.own then e.value else 0).sum +
-    ((b.miners.filter (·.1)).map fun m => (lookup b.diffs m.2).elim 0 (·.value)).sum +
-    (lookup b.diffs b.foundationId).elim 0 (fun e => if e.own then e.value else 0)
-  let taken := (b.txns.map fun t => if t.v2 then v2Outflow t else v1Outflow b t).sum
-  sumE (ownCreated b.diffs) + ephem = paid ∧ sumE (ownSpent b.diffs) + ephem = taken
+/-- **accounted.** The events `appliedEvents` emits for a block — miner payouts, v1/v2 transactions
+with their siafund claims, v1 contract resolutions (valid or missed), v2 contract resolutions
+(storage proof, expiration, renewal), foundation subsidy, through the relevance filters and
+`addEvent`'s "inflow = outflow → no event" — record in total exactly what the block's diffs
+create for and spend from the wallet, for every block whose contents and diffs are coherent
+(`BlockCoherent`, a statement about consensus: what the block's contents pay to / take from an
+address is that address's share of the created / spent elements, and a v1 input's unlock hash is
+the address of the element it spends). -/
+theorem accounted (b : Block) (h : BlockCoherent b) : Accounted b := accounted_of_coherent b h
 
-/-- TARGET (not proved): the balance equation from coherence of the blocks alone.  Missing: the
-derivation `BlockCoherent b → Accounted b`, i.e. that the seven folds of `appliedEvents`
-(with `addEvent` dropping only events whose inflow equals their outflow) sum to `paid` and
-`taken`.  The harness checks `Accounted` on every real block of every history instead (the
-per-block accounting oracle). -/
+/-- **balance_eq** (the former TARGET `C06_balance_full`). For every chain of coherent blocks:
+sum of inflows − sum of outflows = sum of the unspent outputs. -/
+theorem balance_eq (c : List Block) (ids : List Nat) (hc : ChainValid Store.init c) (hn : ids.Nodup)
+    (hb : ∀ b ∈ c, BlockCoherent b ∧ (∀ e ∈ ownCreated b.diffs, e.id ∈ ids) ∧ (∀ e ∈ ownSpent b.diffs, e.id ∈ ids)) :
+    netIn (follow c).events = netOut (follow c).events + total (follow c) ids :=
+  balance_of_accounted c hc ids hn (fun b hbc => ⟨accounted b (hb b hbc).1, (hb b hbc).2⟩)
+
 def C06_balance_full : Prop :=
   ∀ (c : List Block) (ids : List Nat), ChainValid Store.init c → ids.Nodup →
     (∀ b ∈ c, BlockCoherent b ∧ (∀ e ∈ ownCreated b.diffs, e.id ∈ ids) ∧ (∀ e ∈ ownSpent b.diffs, e.id ∈ ids)) →
     netIn (follow c).events = netOut (follow c).events + total (follow c) ids
+
+theorem balance_full : C06_balance_full := fun c ids hc hn hb => balance_eq c ids hc hn hb
+
+/-- **balance_reachable.** The balance equation holds in EVERY store the wallet can reach: start
+from the store of any chain of the block tree, process any update path of the shape
+`UpdatesSince` delivers (any reorg history) cut into any chunks (also chunks ending on a
+revert); no per-block hypothesis about the wallet is left — `Good` (the root paths of the block tree, closed under
+removing the last block) only says that the chains of the tree consist of blocks that are valid on their predecessors and coherent (consensus), and
+`ids` names the outputs the tree ever gives to or takes from the wallet. -/
+theorem balance_reachable (Good : List Block → Prop) (ids : List Nat) (hn : ids.Nodup)
+    (hG : ∀ c, Good c → ChainValid Store.init c ∧
+      ∀ b ∈ c, BlockCoherent b ∧ (∀ e ∈ ownCreated b.diffs, e.id ∈ ids) ∧ (∀ e ∈ ownSpent b.diffs, e.id ∈ ids))
+    (hpre : ∀ c b, Good (c ++ [b]) → Good c)
+    (c : List Block) (hc : Good c) (chunks : List (List Upd)) (c' : List Block)
+    (hp : Path Good c chunks.flatten c') :
+    let s := chunks.foldl (fun s ch => s.run ch) (follow c)
+    netIn s.events = netOut s.events + total s ids := by
+  have hrun := store_follows_updates Good (fun c h => (hG c h).1) c (hG c hc).1 chunks c' hp
+  simp only [hrun]
+  -- the chain the path ends on is `c` itself or was introduced by an apply, hence Good
+  have hgood : Good c' := by
+    clear hrun
+    generalize chunks.flatten = us at hp
+    induction hp with
+    | nil c => exact hc
+    | apply c b us c' hg _ ih => exact ih hg
+    | revert c b us c' _ ih => exact ih (hpre c b hc)
+  exact balance_eq c' ids (hG c' hgood).1 hn (hG c' hgood).2
 
 /-! ### non-vacuity: a concrete reorg -/
 
@@ -116,7 +141,7 @@ example : (follow [b1, b2, b3']).events.map (fun e => (e.id, e.idx, e.inflow, e.
 example : [1, 2, 3, 6].map ((follow [b1, b2, b3]).run [.revert b3, .apply b3']).utxos =
     [some ⟨100, 0, 4⟩, some ⟨50, 5, 4⟩, none, some ⟨7, 6, 4⟩] := by decide
 example : Accounted b1 ∧ Accounted b2 ∧ Accounted b3 ∧ Accounted b3' := by decide
-example : BlockCoherent b3 ∧ BlockCoherent b3' := by unfold BlockCoherent; decide
+example : BlockCoherent b1 ∧ BlockCoherent b2 ∧ BlockCoherent b3 ∧ BlockCoherent b3' := by decide
 example : netIn (follow [b1, b2, b3]).events = netOut (follow [b1, b2, b3]).events + total (follow [b1, b2, b3]) [1, 2, 3] := by decide
 example : ValidOn (follow [b1, b2]) b3 := by
   refine ⟨rfl, ?_, ?_, by decide, by decide, by decide⟩ <;> decide
